@@ -7,12 +7,14 @@
   Here every such predicate is DEFINED as the inductive closure of its introduction rules over an abstract ordered-map
   signature that satisfies the base axioms om-* of the prelude (class `OM`), and every elimination axiom is PROVED.
   Hence the accumulator axioms are a conservative extension of the om-* axioms: whatever the solvers derive from them
-  holds in every model of om-*. The om-* axioms themselves are shown consistent by a list model at the end (`ListOM`).
+  holds in every model of om-*. The om-* axioms themselves are shown consistent by a list model at the end
+  (namespace `ListModel`: association lists with pairwise distinct keys are an instance of `OM`).
   Array-indexed accumulators (matchAny, anyPrefix, MapStrip) are defined by recursion on the length and their
   step / monotonicity / store / elimination axioms are proved.
 -/
 
 set_option linter.unusedVariables false
+set_option linter.unusedSimpArgs false
 
 namespace Schema
 
@@ -392,5 +394,267 @@ theorem elems_copy (d : Int → String) (dp : Int) (s : Int → String) (sp n o 
   · have hc : dp ≤ dp + j ∧ dp + j < dp + m := by omega
     have : sp + (dp + j - dp) = sp + j := by omega
     simpa [copyInto, hc, this] using hs
+
+
+/-! ### a model of the base axioms om-*: association lists with pairwise distinct keys (consistency of `OM`) -/
+
+namespace ListModel
+
+variable {V : Type}
+
+def lidx : List (String × V) → String → Int
+  | [], _ => -1
+  | (k', _) :: t, k => if k' = k then 0 else (if lidx t k < 0 then -1 else lidx t k + 1)
+
+def lkey : List (String × V) → Int → String
+  | [], _ => ""
+  | (k', _) :: t, i => if i = 0 then k' else lkey t (i - 1)
+
+def lval [Inhabited V] : List (String × V) → Int → V
+  | [], _ => default
+  | (_, v') :: t, i => if i = 0 then v' else lval t (i - 1)
+
+def lset : List (String × V) → String → V → List (String × V)
+  | [], k, v => [(k, v)]
+  | (k', v') :: t, k, v => if k' = k then (k', v) :: t else (k', v') :: lset t k v
+
+def llen (l : List (String × V)) : Int := l.length
+
+def keysOf (l : List (String × V)) : List String := l.map Prod.fst
+
+theorem llen_cons (p : String × V) (t : List (String × V)) : llen (p :: t) = llen t + 1 := by
+  simp [llen]
+
+theorem llen_nonneg (l : List (String × V)) : 0 ≤ llen l := by simp [llen]
+
+theorem lidx_range (l : List (String × V)) (k : String) :
+    -1 ≤ lidx l k ∧ lidx l k < llen l ∧ (0 ≤ lidx l k → lkey l (lidx l k) = k) := by
+  induction l with
+  | nil => simp [lidx, llen]
+  | cons p t ih =>
+    obtain ⟨k', v'⟩ := p
+    obtain ⟨h1, h2, h3⟩ := ih
+    simp only [lidx, llen_cons]
+    by_cases hk : k' = k
+    · simp [hk, lkey]; have := llen_nonneg t; omega
+    · simp only [hk, if_false]
+      by_cases hn : lidx t k < 0
+      · simp only [hn, if_true]; refine ⟨by omega, by have := llen_nonneg t; omega, by intro h; omega⟩
+      · simp only [hn, if_false]
+        refine ⟨by omega, by omega, ?_⟩
+        intro _
+        have hne : lidx t k + 1 ≠ 0 := by omega
+        simp only [lkey, hne, if_false]
+        have : lidx t k + 1 - 1 = lidx t k := by omega
+        rw [this]; exact h3 (by omega)
+
+theorem lidx_neg_of_not_mem (l : List (String × V)) (k : String) (h : k ∉ keysOf l) : lidx l k < 0 := by
+  induction l with
+  | nil => simp [lidx]
+  | cons p t ih =>
+    obtain ⟨k', v'⟩ := p
+    simp only [keysOf, List.map_cons, List.mem_cons, not_or] at h
+    have hk : ¬ k' = k := fun e => h.1 e.symm
+    have := ih (by simpa [keysOf] using h.2)
+    simp [lidx, hk, this]
+
+theorem lkey_mem (l : List (String × V)) (i : Int) (h0 : 0 ≤ i) (h1 : i < llen l) : lkey l i ∈ keysOf l := by
+  induction l generalizing i with
+  | nil => simp [llen] at h1; omega
+  | cons p t ih =>
+    obtain ⟨k', v'⟩ := p
+    rw [llen_cons] at h1
+    by_cases hi : i = 0
+    · simp [lkey, hi, keysOf]
+    · simp only [lkey, hi, if_false, keysOf, List.map_cons, List.mem_cons]
+      right; exact ih (i - 1) (by omega) (by omega)
+
+theorem lkey_lidx (l : List (String × V)) (hnd : (keysOf l).Nodup) (i : Int) (h0 : 0 ≤ i) (h1 : i < llen l) :
+    lidx l (lkey l i) = i := by
+  induction l generalizing i with
+  | nil => simp [llen] at h1; omega
+  | cons p t ih =>
+    obtain ⟨k', v'⟩ := p
+    rw [llen_cons] at h1
+    simp only [keysOf, List.map_cons, List.nodup_cons] at hnd
+    by_cases hi : i = 0
+    · simp [lkey, hi, lidx]
+    · have hmem := lkey_mem t (i - 1) (by omega) (by omega)
+      have hne : ¬ k' = lkey t (i - 1) := by
+        intro e; apply hnd.1; rw [e]; simpa [keysOf] using hmem
+      have hrec := ih (by simpa [keysOf] using hnd.2) (i - 1) (by omega) (by omega)
+      simp only [lkey, hi, if_false, lidx, hne]
+      rw [hrec]
+      have : ¬ (i - 1 < 0) := by omega
+      simp only [this, if_false]; omega
+
+theorem lset_len_idx (l : List (String × V)) (k : String) (v : V) :
+    llen (lset l k v) = (if 0 ≤ lidx l k then llen l else llen l + 1) ∧
+    lidx (lset l k v) k = (if 0 ≤ lidx l k then lidx l k else llen l) := by
+  induction l with
+  | nil => simp [lset, lidx, llen]
+  | cons p t ih =>
+    obtain ⟨k', v'⟩ := p
+    obtain ⟨ih1, ih2⟩ := ih
+    by_cases hk : k' = k
+    · simp [lset, lidx, hk, llen_cons]
+    · have hl := llen_nonneg t
+      by_cases hn : lidx t k < 0
+      · have hnn : ¬ (0 ≤ lidx t k) := by omega
+        rw [if_neg hnn] at ih1 ih2
+        have e1 : lidx ((k', v') :: t) k = -1 := by simp [lidx, hk, hn]
+        have e2 : lidx (lset ((k', v') :: t) k v) k = llen t + 1 := by
+          have hlt : ¬ (llen t < 0) := by omega
+          simp only [lset, hk, if_false, lidx]
+          rw [ih2]; simp [hlt]
+        have e3 : llen (lset ((k', v') :: t) k v) = llen t + 1 + 1 := by
+          simp only [lset, hk, if_false, llen_cons]; rw [ih1]
+        have hm1 : ¬ ((0:Int) ≤ -1) := by omega
+        rw [e1, e2, e3, llen_cons, if_neg hm1, if_neg hm1]
+        exact ⟨rfl, rfl⟩
+      · have hnn : 0 ≤ lidx t k := by omega
+        rw [if_pos hnn] at ih1 ih2
+        have e1 : lidx ((k', v') :: t) k = lidx t k + 1 := by simp [lidx, hk, hn]
+        have e2 : lidx (lset ((k', v') :: t) k v) k = lidx t k + 1 := by
+          simp only [lset, hk, if_false, lidx]
+          rw [ih2]; simp [hn]
+        have e3 : llen (lset ((k', v') :: t) k v) = llen t + 1 := by
+          simp only [lset, hk, if_false, llen_cons]; rw [ih1]
+        have hp : (0:Int) ≤ lidx t k + 1 := by omega
+        rw [e1, e2, e3, llen_cons, if_pos hp, if_pos hp]
+        exact ⟨rfl, rfl⟩
+
+theorem lset_idx_other (l : List (String × V)) (k : String) (v : V) (j : String) (hjk : j ≠ k) :
+    lidx (lset l k v) j = lidx l j := by
+  induction l with
+  | nil =>
+    have : ¬ k = j := fun e => hjk e.symm
+    simp [lset, lidx, this]
+  | cons p t ih =>
+    obtain ⟨k', v'⟩ := p
+    by_cases hk : k' = k
+    · simp [lset, hk, lidx]
+    · simp only [lset, hk, if_false, lidx]; rw [ih]
+
+theorem lset_key (l : List (String × V)) (k : String) (v : V) (i : Int) :
+    lkey (lset l k v) i = (if lidx l k < 0 ∧ i = llen l then k else lkey l i) := by
+  induction l generalizing i with
+  | nil =>
+    by_cases hi : i = 0
+    · simp [lset, lkey, lidx, llen, hi]
+    · simp [lset, lkey, lidx, llen, hi]
+  | cons p t ih =>
+    obtain ⟨k', v'⟩ := p
+    by_cases hk : k' = k
+    · subst hk
+      have h0 : ¬ (lidx ((k', v') :: t) k' < 0) := by simp [lidx]
+      simp only [lset, if_true, h0, false_and, if_false, lkey]
+    · simp only [lset, hk, if_false, lkey, lidx, llen_cons]
+      by_cases hi : i = 0
+      · have : ¬ ((0:Int) = llen t + 1) := by have := llen_nonneg t; omega
+        simp [hi, this]
+      · simp only [hi, if_false]
+        rw [ih (i - 1)]
+        by_cases hn : lidx t k < 0
+        · have e : (i - 1 = llen t) ↔ (i = llen t + 1) := by constructor <;> intro h <;> omega
+          simp [hn, e]
+        · have h1 : ¬ (lidx t k + 1 < 0) := by omega
+          simp [hn, h1]
+
+theorem lset_val [Inhabited V] (l : List (String × V)) (k : String) (v : V) (i : Int) :
+    lval (lset l k v) i = (if i = (if 0 ≤ lidx l k then lidx l k else llen l) then v else lval l i) := by
+  induction l generalizing i with
+  | nil =>
+    by_cases hi : i = 0
+    · simp [lset, lval, lidx, llen, hi]
+    · simp [lset, lval, lidx, llen, hi]
+  | cons p t ih =>
+    obtain ⟨k', v'⟩ := p
+    by_cases hk : k' = k
+    · by_cases hi : i = 0
+      · simp [lset, hk, lidx, lval, hi]
+      · simp [lset, hk, lidx, lval, hi]
+    · simp only [lset, hk, if_false, lval, lidx, llen_cons]
+      by_cases hi : i = 0
+      · by_cases hn : lidx t k < 0
+        · have h1 : ¬ ((0:Int) ≤ -1) := by omega
+          have h2 : ¬ ((0:Int) = llen t + 1) := by have := llen_nonneg t; omega
+          simp [hi, hn, h1, h2]
+        · have h1 : (0:Int) ≤ lidx t k + 1 := by omega
+          have h2 : ¬ ((0:Int) = lidx t k + 1) := by omega
+          simp [hi, hn, h1, h2]
+      · simp only [hi, if_false]
+        rw [ih (i - 1)]
+        by_cases hn : lidx t k < 0
+        · have h0 : ¬ (0 ≤ lidx t k) := by omega
+          have h1 : ¬ ((0:Int) ≤ -1) := by omega
+          have e : (i - 1 = llen t) ↔ (i = llen t + 1) := by constructor <;> intro h <;> omega
+          simp [hn, h0, h1, e]
+        · have h0 : 0 ≤ lidx t k := by omega
+          have h1 : (0:Int) ≤ lidx t k + 1 := by omega
+          have e : (i - 1 = lidx t k) ↔ (i = lidx t k + 1) := by constructor <;> intro h <;> omega
+          simp [hn, h0, h1, e]
+
+theorem lset_keys_nodup (l : List (String × V)) (k : String) (v : V) (hnd : (keysOf l).Nodup) :
+    (keysOf (lset l k v)).Nodup := by
+  induction l with
+  | nil => simp [lset, keysOf]
+  | cons p t ih =>
+    obtain ⟨k', v'⟩ := p
+    simp only [keysOf, List.map_cons, List.nodup_cons] at hnd
+    by_cases hk : k' = k
+    · simp only [lset, hk, if_true, keysOf, List.map_cons, List.nodup_cons]
+      rw [← hk]; exact hnd
+    · simp only [lset, hk, if_false, keysOf, List.map_cons, List.nodup_cons]
+      refine ⟨?_, ih (by simpa [keysOf] using hnd.2)⟩
+      intro hmem
+      -- a key of lset t k v is k or a key of t
+      have : ∀ (l : List (String × V)) (x : String), x ∈ (lset l k v).map Prod.fst → x = k ∨ x ∈ l.map Prod.fst := by
+        intro l
+        induction l with
+        | nil => intro x hx; simp [lset] at hx; exact Or.inl hx
+        | cons q u ihu =>
+          obtain ⟨k2, v2⟩ := q
+          intro x hx
+          by_cases h2 : k2 = k
+          · simp [lset, h2] at hx
+            cases hx with
+            | inl h => exact Or.inl h
+            | inr h => right; simp; exact Or.inr h
+          · simp [lset, h2] at hx
+            cases hx with
+            | inl h => right; simp [h]
+            | inr h =>
+              cases ihu x (by simpa using h) with
+              | inl h' => exact Or.inl h'
+              | inr h' => right; simp; exact Or.inr (by simpa using h')
+      cases this t k' hmem with
+      | inl h => exact hk h
+      | inr h => exact hnd.1 h
+
+/-- association lists with pairwise distinct keys -/
+structure LMap (V : Type) where
+  l : List (String × V)
+  nd : (keysOf l).Nodup
+
+/-- the list model satisfies every base axiom of the ordered-map signature: the axioms om-* are consistent -/
+instance [Inhabited V] : OM (LMap V) V where
+  empty := ⟨[], by simp [keysOf]⟩
+  len m := llen m.l
+  key m i := lkey m.l i
+  val m i := lval m.l i
+  idx m k := lidx m.l k
+  set m k v := ⟨lset m.l k v, lset_keys_nodup m.l k v m.nd⟩
+  len_nonneg m := llen_nonneg m.l
+  empty_len := by simp [llen]
+  empty_idx k := by simp [lidx]
+  idx_range m k := lidx_range m.l k
+  key_idx m i h0 h1 := lkey_lidx m.l m.nd i h0 h1
+  set_len m k v := lset_len_idx m.l k v
+  set_key m k v i := lset_key m.l k v i
+  set_val m k v i := lset_val m.l k v i
+  set_idx m k v j h := lset_idx_other m.l k v j h
+
+end ListModel
 
 end Schema
